@@ -280,7 +280,8 @@ def check_continuum(case, rec):
 @st.composite
 def lagrange_cases(draw):
     case = draw(continuum_cases())
-    case["recipe"]["orphans"] = 0
+    # orphan nodes together with multiplier rows: the bordered system must not be singular either
+    case["recipe"]["orphans"] = draw(st.sampled_from([0, 0, 1, 2])) if not case["recipe"].get("bend") else 0
     case["solver"] = "scipy"
     case["dups"] = draw(st.booleans())  # Dirichlet dofs entered several times, combined with Lagrange conditions
     case["ncons"] = draw(st.integers(1, 3))
@@ -309,13 +310,13 @@ def check_lagrange(case, rec):
     ustar = np.asarray(simu.Solve(), float).ravel().copy()
     dofs_d = np.array(sorted(expected), int)
     free = np.setdiff1d(np.arange(ustar.size), dofs_d)
-    if free.size < 4:
-        raise Inconclusive("too few free dofs")
+    if np.isin(free // ncomp, used).sum() < 4:
+        raise Inconclusive("too few free dofs")  # (counted on the nodes of the mesh: orphan dofs carry no constraint)
     rng = np.random.default_rng(case["cseed"])
     cons = []
     for _ in range(case["ncons"]):
         # one dof on each of m distinct nodes (the condition object requires len(dofs) % len(nodes) == 0)
-        fnodes = np.unique(free // ncomp)
+        fnodes = np.intersect1d(np.unique(free // ncomp), used)  # constraints tie nodes of the mesh, not orphan nodes
         m = int(rng.integers(2, min(5, fnodes.size) + 1))
         cn = rng.choice(fnodes, size=m, replace=False)
         cd = []
